@@ -401,9 +401,12 @@ def _splice_one(c, rel, fns, src, msk, add, registry):
                 registry.append(cl)
                 parts.append('\n/*#OB %s*/ %s,' % (cl.oid, cl.text))
             add(p0 + len(mk), ''.join(parts) + '\n/*#END*/ ')
-        for anchor, text in c.ats:
+        for at_idx, (anchor, text) in enumerate(c.ats):
             check_ghost_only(c.name, text)
-            text = '\n' + text + '\n'
+            # contract-authored proof text is an obligation of its own (its assertions existed on the unchanged tree)
+            cl_at = Clause('at', c.tags, anchor, c.name, at_idx)
+            registry.append(cl_at)
+            text = '\n/*#OB %s*/\n' % cl_at.oid + text + '\n/*#END*/\n'
             m = re.fullmatch(r'loop(\d+)\.(before|body_start|body_end|after)', anchor)
             mc = re.fullmatch(r'const:(\w+)', anchor)
             if mc:
